@@ -302,3 +302,120 @@ theorem abs_congr {a b : Sys} (ht : b.topics.map (fun t => (t.tid, t.name)) = a.
   rw [h1, h2]
 
 end Deltio
+
+namespace Deltio
+
+/-! ### facts about the specification itself -/
+
+theorem alookup_append {α β} [BEq α] (k : α) (l r : List (α × β)) :
+    alookup k (l ++ r) = (alookup k l).or (alookup k r) := by
+  induction l with
+  | nil => simp [alookup]
+  | cons x rest ih =>
+    obtain ⟨k', v⟩ := x
+    simp only [List.cons_append, alookup]
+    split <;> simp [ih]
+
+theorem alookup_map_snd {α β} [BEq α] (k : α) (f : α × β → β) (l : List (α × β)) :
+    alookup k (l.map (fun kr => (kr.1, f kr))) = (l.find? (fun kr => kr.1 == k)).map f := by
+  induction l with
+  | nil => rfl
+  | cons x rest ih =>
+    obtain ⟨k', v⟩ := x
+    simp only [List.map_cons, alookup, List.find?_cons]
+    cases h : k' == k <;> simp [ih]
+
+theorem alookup_eq_find {α β} [BEq α] (k : α) (l : List (α × β)) :
+    alookup k l = (l.find? (fun kr => kr.1 == k)).map (·.2) := by
+  induction l with
+  | nil => rfl
+  | cons x rest ih =>
+    obtain ⟨k', v⟩ := x
+    simp only [alookup, List.find?_cons]
+    cases h : k' == k <;> simp [ih]
+
+theorem alookup_filter_ne {α β} [BEq α] [LawfulBEq α] (k n : α) (hk : k ≠ n) (l : List (α × β)) :
+    alookup k (l.filter (fun kr => kr.1 != n)) = alookup k l := by
+  induction l with
+  | nil => rfl
+  | cons x rest ih =>
+    obtain ⟨k', v⟩ := x
+    simp only [List.filter_cons]
+    by_cases h : k' = n
+    · subst h
+      have : (k' == k) = false := by simpa using fun h => hk h.symm
+      simp [alookup, this, ih]
+    · have hne : (k' != n) = true := by simpa using h
+      simp only [hne, if_true, alookup]
+      split <;> simp [ih]
+
+/-- **Once its topic is gone, a subscription never has a topic again.** Whatever the next request is
+    (including re-creating a topic of the same name), a subscription whose reference is `none` keeps
+    `none` for as long as it exists. -/
+theorem Spec.deleted_topic_is_forever (s : Spec) (r : Req) (k : Name) (e : SpecSub)
+    (hk : alookup k s.subs = some e) (hn : e.topic = none) :
+    alookup k (s.apply r).1.subs = none ∨ ∃ e', alookup k (s.apply r).1.subs = some e' ∧ e'.topic = none := by
+  have keep : alookup k s.subs = none ∨ ∃ e', alookup k s.subs = some e' ∧ e'.topic = none := .inr ⟨e, hk, hn⟩
+  cases r with
+  | createTopic raw => simp only [Spec.apply]; (repeat' split) <;> exact keep
+  | getTopic raw => simp only [Spec.apply]; (repeat' split) <;> exact keep
+  | listTopics p sz t => simp only [Spec.apply]; (repeat' split) <;> exact keep
+  | listTopicSubs raw sz t => simp only [Spec.apply]; (repeat' split) <;> exact keep
+  | getSub raw => simp only [Spec.apply]; (repeat' split) <;> exact keep
+  | listSubs p sz t => simp only [Spec.apply]; (repeat' split) <;> exact keep
+  | publish raw m => simp only [Spec.apply]; (repeat' split) <;> exact keep
+  | pull raw m ri => simp only [Spec.apply]; (repeat' split) <;> exact keep
+  | ack raw ids => simp only [Spec.apply]; (repeat' split) <;> exact keep
+  | modAck raw secs ids => simp only [Spec.apply]; (repeat' split) <;> exact keep
+  | unimplemented => exact keep
+  | deleteTopic raw =>
+    simp only [Spec.apply]
+    split
+    · exact keep
+    · split
+      · rename_i n _ _
+        refine .inr ?_
+        simp only
+        rw [alookup_map_snd k (fun (kr : Name × SpecSub) => if kr.2.topic == some n then { kr.2 with topic := none } else kr.2)]
+        rw [alookup_eq_find] at hk
+        cases hf : s.subs.find? (fun kr => kr.1 == k) with
+        | none => rw [hf] at hk; cases hk
+        | some kr =>
+          rw [hf] at hk
+          simp only [Option.map_some, Option.some.injEq] at hk
+          refine ⟨_, rfl, ?_⟩
+          simp only
+          split
+          · rfl
+          · rw [hk]; exact hn
+      · exact keep
+  | deleteSub raw =>
+    simp only [Spec.apply]
+    split
+    · exact keep
+    · rename_i n _
+      split
+      · exact keep
+      · by_cases hkn : k = n
+        · subst hkn
+          refine .inl ?_
+          simp only
+          rw [alookup_eq_find]
+          have : (s.subs.filter (fun kr => kr.1 != k)).find? (fun kr => kr.1 == k) = none := by
+            apply List.find?_eq_none.mpr
+            intro x hx
+            have := (List.mem_filter.mp hx).2
+            simpa using this
+          rw [this]; rfl
+        · refine .inr ⟨e, ?_, hn⟩
+          simp only
+          rw [alookup_filter_ne k n hkn]; exact hk
+  | createSub rawN rawT ack push =>
+    simp only [Spec.apply]
+    (repeat' split) <;> first
+      | exact keep
+      | (refine .inr ⟨e, ?_, hn⟩
+         simp only
+         rw [alookup_append, hk]; rfl)
+
+end Deltio
